@@ -15,7 +15,7 @@ import traceback
 VERIF = pathlib.Path(__file__).resolve().parent.parent
 COQ = VERIF / 'coq'
 DRIVER = VERIF / 'bin' / 'driver'
-REPO = pathlib.Path('/repo')
+REPO = pathlib.Path(os.environ.get('VERIF_REPO', '/repo'))
 
 ALLOWED_AXIOMS = set()   # the development targets "Closed under the global context"
 
@@ -301,8 +301,10 @@ class Check:
             'coverage': cov, 'assumptions': self.assumptions, 'wall_s': round(wall, 2),
             'violations': len(self.violations),
         }
-        (VERIF / 'evidence').mkdir(exist_ok=True)
-        (VERIF / 'evidence' / f'{self.pid}.json').write_text(json.dumps(ev, indent=1, default=str) + '\n')
+        # a run against another checkout (VERIF_REPO, seeded-change trials) must not overwrite the evidence
+        evdir = VERIF / 'evidence' if str(REPO) == '/repo' else VERIF / 'replays' / 'evidence_other_checkout'
+        evdir.mkdir(parents=True, exist_ok=True)
+        (evdir / f'{self.pid}.json').write_text(json.dumps(ev, indent=1, default=str) + '\n')
         for k in self.known:
             if k['id'] in self.known_hits:
                 print(f"KNOWN-FINDING: property={self.pid} {k['what']} [{k['id']}; {self.known_hits[k['id']]} case(s)]")
